@@ -516,3 +516,19 @@ PROPS["C15"] = dict(
 	stubs=[], assumptions=["get_entries / get_entries_with_index are represented by the index's bucket semantics (C06); Value::unordered_eq on scalars is equality"],
 	harnesses=[UNORD("quick", 3, 900), UNORD("thorough", 4, 3600)],
 )
+
+# ---------------------------------------------------------------------------
+# C11: key-based mapped lookups by symbolic execution of their MIR (drv/objcheck.py --mapped)
+def MAPPED(tier, n, cap):
+	h = H("obj::mapped_lookups_n%d" % n, "mir", tier, cap,
+	      "every object of <= %d entries built by interpreted pushes, keys SYMBOLIC (which keys coincide is decided lazily by z3), a symbolic query key, a symbolic container offset, and a code map whose volumes are an UNINTERPRETED FUNCTION vol(index) "
+	      "(children of arbitrary size); equality of the yielded offsets with the C05 layout is proved by z3 over vol and the offset" % n, "objects of <= %d entries" % n, gb=2.0)
+	h["tool"] = "objcheck"
+	h["mapped"] = n
+	return h
+
+
+PROPS["C11"]["harnesses"] = PROPS["C11"]["harnesses"] + [MAPPED("quick", 3, 900), MAPPED("thorough", 4, 3600)]
+PROPS["C11"]["functions"] = PROPS["C11"]["functions"] + ["Object::get_mapped_entries / get_mapped and the MappedEntries / MappedValues iterators' next and their closures (from MIR)"]
+PROPS["C11"]["assumptions"] = PROPS["C11"]["assumptions"] + ["mapped-lookup check (MIR): the code map is an uninterpreted volume function; the key index is the bucket-semantics model (C06); counter-examples are replayed on a document parsed by the real parser (every value an array of one item)"]
+PROPS["C11"]["outside"] = [x for x in PROPS["C11"]["outside"] if not x.startswith("mapped lookups on objects with two distinct keys")] + ["the WithIndex and unique variants of the mapped lookups (same macro-generated iterator body as the two that are interpreted)"]
